@@ -185,6 +185,11 @@ def main(argv=None):
 
     pool_restarts = 0
     pool_errors = []
+    api_retries = {}
+
+    def _tk(t):
+        return (t[1], json.dumps(t[2], sort_keys=True, default=str), repr([(e[0], e[1]) for e in t[3]]))
+
     ex = cf.ProcessPoolExecutor(max_workers=nworkers, mp_context=ctx)
     try:
         inflight = {}
@@ -201,6 +206,15 @@ def main(argv=None):
                 except BrokenProcessPool:
                     # a worker process died (e.g. a crash inside the solver library): every
                     # in-flight task is lost with it; start a new pool and run them again
+                    broken = True
+                    tasks.appendleft(t)
+                    continue
+                if any("solver API error" in str(e) for e in res.errors) and api_retries.get(_tk(t), 0) < 2:
+                    # the solver library reported an internal inconsistency (seen only together with
+                    # worker crashes in the harnesses that run real event loops and their helper
+                    # threads): nothing that worker computed in this slice is trusted; run the
+                    # slice again in a fresh pool
+                    api_retries[_tk(t)] = api_retries.get(_tk(t), 0) + 1
                     broken = True
                     tasks.appendleft(t)
                     continue
